@@ -88,6 +88,24 @@ def rule_flow_mono(ctx):
     let = hq.let_by_id(b["body"]).get(fid)
     init = strip(let["init"]) if let and "init" in let else {}
     ctx.add("FLOW-MONO", "init-true", init.get("k") == "Lit" and init.get("v") is True, site, "verdict flag `%s` is initialised with literal true" % (let or {}).get("pat", {}).get("name"))
+    # every result of prove_all reaches the loop body: between the call and the loop only adaptors that neither drop nor stop (`take_while`,
+    # `filter`, `take`, `skip` .. let a failed run pass unseen)
+    pa_calls = hq.calls(loop[1], "Prover::prove_all")
+    pm_it = hq.parent_map(loop[1])
+    chain_ = []
+    cur_ = pa_calls[0] if len(pa_calls) == 1 else None
+    while cur_ is not None:
+        par_ = pm_it.get(id(cur_))
+        if par_ is None:
+            break
+        if par_.get("k") == "MethodCall" and par_.get("recv") is cur_:
+            chain_.append(par_["method"])
+        elif par_.get("k") == "Call" and cur_ in par_.get("args", []):
+            chain_.append(hq.last(callee_generic(par_) or "?"))
+        cur_ = par_
+    harmless = {"into_iter", "iter", "inspect", "enumerate", "by_ref", "peekable", "fuse"}
+    ctx.add("FLOW-MONO", "every-result", len(pa_calls) == 1 and all(m_ in harmless for m_ in chain_), site,
+            "the result loop runs over everything prove_all yields (adaptors in between: %s)" % chain_)
     loop_ids = {id(n) for n in walk(loop[0])}
     asg = [a for a in hq.assigns_to(b["body"], fid) if id(a) not in loop_ids]
     ctx.add("FLOW-MONO", "no-write-outside-loop", not asg, site, "the flag is not assigned outside the result loop (%d assignments)" % len(asg))
